@@ -305,3 +305,6 @@ def connect_outcomes(fl: int, oi: int, req_ws: bool, jsonp: bool) -> str:
     post: _ == ''
     """
     return verdict(untraced(_connect_outcome, fl, oi, req_ws, jsonp))
+
+
+from vf.validate.stubs import ALL as VALIDATE  # noqa: E402  (stub-vs-real conformance, run before the obligations)
